@@ -14,6 +14,27 @@ CHECKS = {
         design="4/C19"),
 }
 
+CHECKS.update({
+    "C02": dict(
+        level="model_checking",
+        technique="explicit-state BFS over public-API operation histories executed on the real Presentation (replay mode, canonical-state dedup); every state saved and judged by an independent OPC reader and by semantic comparison with the re-opened file",
+        text="All histories over a 38-operation alphabet to depth 2 (thorough 3) from 4 initial decks (default, slide parts out of presentation order, non-contiguous slide names, corpus deck) plus a cache-sensitive 11-operation sub-alphabet to depth 3 (thorough 5); in every state the saved zip satisfies the statement's closure rules, content types equal created/loaded types, and the re-opened deck shows what memory showed. Histories (save -> rename -> save) are exactly what unit tests never form.",
+        note="Trusted: mc/oracles/opc_ref.py (zipfile + bare lxml), lxml c14n, the semantic snapshot in mc/drivers/state.py (public read API). Canonical state = saved-package digest + populated lazy caches read reflectively; missing hidden state can only merge states.",
+        design="4/C02"),
+    "C11": dict(
+        level="exploration",
+        technique="bounded-exhaustive enumeration of every attribute declaration and simple-type class x boundary/neighbour/wrong-type values, executed on the real setters/getters, lexical validity decided by libxml2 against the ISO schemas' simple types",
+        text="159 attribute declarations, 52 simple-type classes and 16 XML enumerations found by reflection, each x every schema bound and enforced bound +-R, rounding-threshold neighbours, int/float/bool/str/None/bytes/list values and every lexical alternative of the schema type for reading; exhaustive over that value alphabet (evaluations asserted equal to the closed-form size).",
+        note="Trusted: libxml2 XSD validation of generated probe elements per simple type; mapping (tag, attribute) -> schema type from mc/oracles/xsd.Index (weak rule on overloaded tags: valid for at least one candidate type). Non-finite floats and whitespace-padded forms excluded.",
+        design="4/C11"),
+    "C20": dict(
+        level="exploration",
+        technique="exhaustive enumeration of every member of every XML-mapped enumeration, every preset auto-shape row and every writable chart type, compared with the schema enumerations and presetShapeDefinitions.xml shipped in the repository",
+        text="575 enumeration members (run time and module AST), 182 auto-shape rows against the standard's preset definitions (with the stated erratum tolerance), 182 add_shape read-backs (live and after re-open), 29 writable chart types x 9 data sizes read back; the space is finite and enumerated completely.",
+        note="Trusted: spec/ XSDs and presetShapeDefinitions.xml as shipped; the enum -> ST_* table in mc/props/c20.py is cross-checked against the attribute declarations that use each enum.",
+        design="4/C20"),
+})
+
 NOT_BUILT = "check not completed yet (machinery under construction; see DESIGN.md section 8)"
 
 def main():
